@@ -6,6 +6,7 @@
 mod attrs;
 mod canon;
 mod conc;
+mod dec;
 mod det;
 mod eqv;
 mod feat;
@@ -36,6 +37,7 @@ fn main() {
         "bpm" | "det" => det::main(cmd, arg(&args, 2, 0), arg(&args, 3, 100), arg(&args, 4, 30)),
         "feat" => feat::main(arg(&args, 2, 0), arg(&args, 3, 100), arg(&args, 4, 30)),
         "conc" => conc::main(arg(&args, 2, 0), arg(&args, 3, 100), arg(&args, 4, 30)),
+        "dec" => dec::main(arg(&args, 2, 0), arg(&args, 3, 100), arg(&args, 4, 100), arg(&args, 5, 100)),
         "gperf" => gperf::main(arg(&args, 2, 0), arg(&args, 3, 100), arg(&args, 4, 40)),
         "grad" => grad::main(arg(&args, 2, 0), arg(&args, 3, 100), arg(&args, 4, 40)),
         _ => {
